@@ -1,10 +1,472 @@
-/- C10 — property theorems (work in progress: filled below). -/
-import SkNet.Model.Path
-import SkNet.Spec.Path
+/-
+C10 — Hop distances, shortest-path DAGs and search orders are exact.
+
+Property theorems about the model `SkNet/Model/Path.lean` (which mirrors sknetwork/path/*.py and is tied to
+the code by the correspondence harness tools/harness/c10.py).  Specification: `SkNet/Spec/Path.lean`
+(`Walk`, `IsDist`, `Unreachable`).  Helper lemmas: `SkNet/Lemmas/Path.lean`.  Core Lean only.
+-/
+import SkNet.Lemmas.Path
 
 namespace SkNet.C10
 open SkNet SkNet.Path
 
-theorem tab_len_example (n : Nat) : (tab n (fun v => v)).length = n := by simp
+attribute [-simp] List.getD_eq_getElem?_getD
+
+/-! ## get_distances -/
+
+/-- **bfs_exact** (with termination). For every number of nodes, every edge predicate and every source
+mask, the frontier loop of `get_distances` — run with `n+1` rounds of fuel — returns (never runs out of
+fuel) a vector of length `n` whose entry `v` is the length of a shortest walk from a source to `v`, and
+`-1` exactly when no walk of any length reaches `v`. -/
+theorem bfs_exact (n : Nat) (edge : Nat → Nat → Bool) (srcMask : List Bool) :
+    ∃ dist, distancesFromMask n edge srcMask = some dist ∧
+      Exact n edge (fun v => srcMask.getD v false) dist ∧ Bounded n dist := by
+  unfold distancesFromMask
+  exact bfsLoop_correct (n+1) 0 _ _ (inv_init srcMask) (by omega)
+
+/-- The entries of an exact distance vector, read as the property states them. -/
+theorem exact_entry {n : Nat} {edge : Nat → Nat → Bool} {src : Nat → Bool} {dist : List Int}
+    (h : Exact n edge src dist) {v : Nat} (hv : v < n) :
+    (dist.getD v (-1) = -1 ↔ Unreachable n edge src v) ∧
+    (∀ d : Nat, dist.getD v (-1) = (d : Int) ↔ IsDist n edge src v d) := by
+  rcases h.2 v hv with ⟨d, hd, hdist⟩ | ⟨hm, hun⟩
+  · refine ⟨⟨fun h1 => ?_, fun hun => absurd hdist.1 (hun d)⟩, fun e => ⟨fun he => ?_, fun he => ?_⟩⟩
+    · rw [hd] at h1; omega
+    · have : d = e := by rw [hd] at he; omega
+      subst this; exact hdist
+    · -- two distances of the same node coincide
+      have : d = e := by
+        rcases Nat.lt_trichotomy d e with hlt | heq | hgt
+        · exact absurd hdist.1 (he.2 d hlt)
+        · exact heq
+        · exact absurd he.1 (hdist.2 e hgt)
+      subst this; exact hd
+  · refine ⟨⟨fun _ => hun, fun _ => hm⟩, fun e => ⟨fun he => ?_, fun he => absurd he.1 (hun e)⟩⟩
+    rw [hm] at he; omega
+
+/-- Non-vacuity: the directed 3-cycle of the docstring, sources {0} and {0,2}. -/
+example : distancesFromMask 3 (fun i j => j == (i+1) % 3) [true, false, false] = some [0, 1, 2] := by decide
+example : distancesFromMask 3 (fun i j => j == (i+1) % 3) [true, false, true] = some [0, 1, 0] := by decide
+example : distancesFromMask 3 (fun i j => i == 0 && j == 1) [true, false, false] = some [0, 1, -1] := by decide
+
+/-- `get_distances` never reports exhausted fuel: whenever the argument routing succeeds, a result exists. -/
+theorem getDistances_total (nRow nCol : Nat) (edge : Nat → Nat → Bool) (a : DistArgs) :
+    getDistances nRow nCol edge a ≠ .ok none := by
+  unfold getDistances
+  cases hr : routeDistances nRow nCol a with
+  | error e => simp [bind, Except.bind]
+  | ok r =>
+    obtain ⟨dist, hd, _, _⟩ := bfs_exact r.nNodes (routedEdge a r edge) r.mask
+    simp only [bind, Except.bind, hd]
+    split <;> simp [pure, Except.pure]
+
+/-! ## the executable specification of the `spec` lines -/
+
+/-- a hop distance is always smaller than the number of nodes -/
+theorem isDist_lt {n : Nat} {edge : Nat → Nat → Bool} {src : Nat → Bool} {v d : Nat}
+    (h : IsDist n edge src v d) : d < n := by
+  obtain ⟨dist, _, hex, hb⟩ := bfs_exact n edge (tab n src)
+  have hv : v < n := h.1.lt
+  have hc : ∀ w, w < n → src w = (fun v => (tab n src).getD v false) w := by
+    intro w hw; simp [hw]
+  have h' : IsDist n edge (fun v => (tab n src).getD v false) v d := (IsDist.congr hc v d).1 h
+  rcases hex.2 v hv with ⟨e, he, hde⟩ | ⟨_, hun⟩
+  · have : d = e := by
+      rcases Nat.lt_trichotomy d e with hlt | heq | hgt
+      · exact absurd h'.1 (hde.2 d hlt)
+      · exact heq
+      · exact absurd hde.1 (h'.2 e hgt)
+    subst this
+    exact hb v hv d he
+  · exact absurd h'.1 (hun d)
+
+theorem walkLayer_iff (n : Nat) (edge : Nat → Nat → Bool) (src : Nat → Bool) (d v : Nat) :
+    (walkLayer n edge src d).getD v false = true ↔ Walk n edge src d v := by
+  induction d generalizing v with
+  | zero =>
+    rw [Walk.zero_iff]
+    simp only [walkLayer, tab_getD]
+    by_cases hv : v < n <;> simp [hv]
+  | succ d ih =>
+    rw [Walk.succ_iff]
+    simp only [walkLayer, tab_getD]
+    by_cases hv : v < n
+    · simp only [hv, if_true, List.any_eq_true, List.mem_range, Bool.and_eq_true, true_and]
+      constructor
+      · rintro ⟨u, _, hu, he⟩; exact ⟨u, (ih u).1 hu, he⟩
+      · rintro ⟨u, hu, he⟩; exact ⟨u, hu.lt, (ih u).2 hu, he⟩
+    · simp [hv]
+
+/-- **hopDist_spec**. The executable specification evaluated by the driver on the implementation's outputs
+(`c10.spec_*` lines) computes exactly the hop distance of the propositional specification. -/
+theorem hopDist_spec (n : Nat) (edge : Nat → Nat → Bool) (src : Nat → Bool) (v : Nat) :
+    (∀ d : Nat, hopDist n edge src v = (d : Int) ↔ IsDist n edge src v d) ∧
+    (hopDist n edge src v = -1 ↔ Unreachable n edge src v) := by
+  unfold hopDist
+  cases hf : findFirst (fun d => (walkLayer n edge src d).getD v false) 0 n with
+  | some d =>
+    obtain ⟨_, hdn, hfd, hmin⟩ := (findFirst_some _ n 0 d).1 hf
+    have hdist : IsDist n edge src v d := by
+      refine ⟨(walkLayer_iff n edge src d v).1 hfd, fun e he hw => ?_⟩
+      have := hmin e (Nat.zero_le _) he
+      rw [(walkLayer_iff n edge src e v).2 hw] at this
+      exact Bool.noConfusion this
+    refine ⟨fun e => ⟨fun h => ?_, fun h => ?_⟩, ⟨fun h => ?_, fun h => absurd hdist.1 (h d)⟩⟩
+    · have : d = e := Int.ofNat.inj h
+      subst this; exact hdist
+    · have : d = e := by
+        rcases Nat.lt_trichotomy d e with hlt | heq | hgt
+        · exact absurd hdist.1 (h.2 d hlt)
+        · exact heq
+        · exact absurd h.1 (hdist.2 e hgt)
+      subst this; rfl
+    · simp at h
+  | none =>
+    have hnone := (findFirst_none _ n 0).1 hf
+    have hun : Unreachable n edge src v := by
+      intro d hw
+      -- a reachable node has a hop distance, which is below n, where the scan found nothing
+      have hex : ∃ e, IsDist n edge src v e := by
+        clear hnone hf
+        induction d using Nat.strongRecOn with
+        | _ d ih =>
+          by_cases hmin : ∀ d', d' < d → ¬ Walk n edge src d' v
+          · exact ⟨d, hw, hmin⟩
+          · have : ∃ d', d' < d ∧ Walk n edge src d' v := by
+              apply Classical.byContradiction
+              intro hcon
+              exact hmin (fun d' hd' hw' => hcon ⟨d', hd', hw'⟩)
+            obtain ⟨d', hd', hw'⟩ := this
+            exact ih d' hd' hw'
+      obtain ⟨e, he⟩ := hex
+      have := hnone e (Nat.zero_le _) (by simpa using isDist_lt he)
+      rw [(walkLayer_iff n edge src e v).2 he.1] at this
+      exact Bool.noConfusion this
+    refine ⟨fun e => ⟨fun h => ?_, fun h => absurd h.1 (hun e)⟩, ⟨fun _ => hun, fun _ => rfl⟩⟩
+    simp at h
+
+example : hopDist 3 (fun i j => j == (i+1) % 3) (fun v => v == 0) 2 = 2 := by decide
+
+/-! ## argument routing (shared with C03) -/
+
+/-- `mask[idx] = 1`: afterwards exactly the old nodes and the listed ones are set. -/
+theorem setMask_spec {n : Nat} {mask : List Bool} {idx : List Nat} {m : List Bool}
+    (h : setMask n mask idx = .ok m) :
+    (∀ i ∈ idx, i < n) ∧ m.length = n ∧
+    ∀ v, v < n → (m.getD v false = true ↔ mask.getD v false = true ∨ v ∈ idx) := by
+  unfold setMask at h
+  split at h
+  · rename_i hall
+    cases h
+    refine ⟨fun i hi => by simpa using List.all_eq_true.1 hall i hi, by simp, fun v hv => ?_⟩
+    simp [hv]
+  · cases h
+
+/-- `setMask` refuses exactly when an index is out of range (numpy's IndexError). -/
+theorem setMask_error_iff {n : Nat} {mask : List Bool} {idx : List Nat} :
+    setMask n mask idx = .error .indexError ↔ ∃ i ∈ idx, n ≤ i := by
+  unfold setMask
+  split
+  · rename_i hall
+    constructor
+    · intro h; cases h
+    · rintro ⟨i, hi, hn⟩
+      have := List.all_eq_true.1 hall i hi
+      simp at this; omega
+  · rename_i hall
+    constructor
+    · intro _
+      have hf : idx.all (· < n) = false := by simpa using hall
+      obtain ⟨i, hi, hlt⟩ := List.all_eq_false.1 hf
+      exact ⟨i, hi, by simpa using hlt⟩
+    · intro _; rfl
+
+/-- **distances_routing (plain graph)**. On a square matrix without any bipartite request, the mask handed
+to the loop is exactly the source set, the graph is the input (transposed when asked), and a missing
+`source` is the documented `ValueError`. -/
+theorem route_plain (n : Nat) (a : DistArgs) (hrow : a.sourceRow = none) (hcol : a.sourceCol = none)
+    (hfb : a.forceBipartite = false) :
+    (a.source = none → routeDistances n n a = .error .valueError) ∧
+    (∀ s, a.source = some s → (∀ i ∈ s, i < n) →
+      ∃ m, routeDistances n n a = .ok ⟨false, n, n, m⟩ ∧ m.length = n ∧
+        ∀ v, v < n → (m.getD v false = true ↔ v ∈ s)) := by
+  constructor
+  · intro hs
+    simp [routeDistances, hrow, hcol, hfb, hs, throw, throwThe, MonadExceptOf.throw]
+  · intro s hs hin
+    have hall : s.all (· < n) = true := List.all_eq_true.2 (fun i hi => by simpa using hin i hi)
+    refine ⟨tab n fun v => (tab n fun _ => false).getD v false || s.contains v, ?_, by simp, fun v hv => ?_⟩
+    · simp [routeDistances, hrow, hcol, hfb, hs, bind, Except.bind, setMask, hall, pure, Except.pure]
+    · simp [hv]
+
+/-- **distances_routing (bipartite)**. With `source_row` / `source_col` (or `source` as alias of
+`source_row`) on an `nRow × nCol` biadjacency matrix, the mask handed to the loop is the block-numbered
+source set: row node `i` at `i`, column node `j` at `nRow + j`. -/
+theorem route_bipartite (nRow nCol : Nat) (sr sc : List Nat)
+    (hsr : ∀ i ∈ sr, i < nRow) (hsc : ∀ j ∈ sc, j < nCol) :
+    ∃ m, routeDistances nRow nCol { sourceRow := some sr, sourceCol := some sc }
+          = .ok ⟨true, nRow, nRow + nCol, m⟩ ∧ m.length = nRow + nCol ∧
+      ∀ v, v < nRow + nCol →
+        (m.getD v false = true ↔ (v ∈ sr ∨ (nRow ≤ v ∧ (v - nRow) ∈ sc))) := by
+  have h1 : sr.all (· < nRow + nCol) = true :=
+    List.all_eq_true.2 (fun i hi => by have := hsr i hi; simp; omega)
+  have h2 : (sc.map (nRow + ·)).all (· < nRow + nCol) = true := by
+    apply List.all_eq_true.2
+    intro i hi
+    obtain ⟨j, hj, rfl⟩ := List.mem_map.1 hi
+    have := hsc j hj
+    simp; omega
+  refine ⟨tab (nRow + nCol) fun v =>
+      (tab (nRow + nCol) fun v => (tab (nRow + nCol) fun _ => false).getD v false || sr.contains v).getD v false
+        || (sc.map (nRow + ·)).contains v, ?_, ?_, ?_⟩
+  · simp [routeDistances, bind, Except.bind, setMask, h1, h2, pure, Except.pure]
+  · simp
+  · intro v hv
+    simp only [tab_getD, hv, if_true, Bool.or_eq_true, List.contains_eq_mem, decide_eq_true_eq,
+      List.mem_map]
+    constructor
+    · rintro ((h | h) | ⟨j, hj, rfl⟩)
+      · exact absurd h (by decide)
+      · exact Or.inl h
+      · right; exact ⟨by omega, by rwa [Nat.add_sub_cancel_left]⟩
+    · rintro (h | ⟨hle, h⟩)
+      · exact Or.inl (Or.inr h)
+      · right; exact ⟨v - nRow, h, by omega⟩
+
+/-- Non-vacuity of the routing theorems: a 2×3 biadjacency with a row source and a column source. -/
+example : (routeDistances 2 3 { sourceRow := some [1], sourceCol := some [2] }).toOption.map (·.mask)
+    = some [false, true, false, false, true] := by decide
+
+/-- The block adjacency used for bipartite input is `[[0,B],[Bᵀ,0]]` with the rows first. -/
+theorem blockEdge_spec (nRow : Nat) (b : Nat → Nat → Bool) (i j : Nat) :
+    blockEdge nRow b i j = true ↔
+      (i < nRow ∧ nRow ≤ j ∧ b i (j - nRow) = true) ∨ (nRow ≤ i ∧ j < nRow ∧ b j (i - nRow) = true) := by
+  unfold blockEdge
+  by_cases hi : i < nRow <;> by_cases hj : j < nRow <;> simp [hi, hj] <;> omega
+
+/-- the block adjacency is symmetric (an undirected graph) -/
+theorem blockEdge_symm (nRow : Nat) (b : Nat → Nat → Bool) (i j : Nat) :
+    blockEdge nRow b i j = blockEdge nRow b j i := by
+  unfold blockEdge
+  by_cases hi : i < nRow <;> by_cases hj : j < nRow <;> simp [hi, hj]
+
+/-- **get_distances, end to end (plain graph).** For a square matrix and a set of in-range sources, the
+function returns one vector, which is exact for the source set. -/
+theorem getDistances_plain_exact (n : Nat) (edge : Nat → Nat → Bool) (s : List Nat) (hs : ∀ i ∈ s, i < n) :
+    ∃ d, getDistances n n edge { source := some s } = .ok (some (.single d)) ∧
+      Exact n edge (fun v => s.contains v) d := by
+  obtain ⟨m, hroute, _, hm⟩ := (route_plain n { source := some s } rfl rfl rfl).2 s rfl hs
+  obtain ⟨d, hd, hex, _⟩ := bfs_exact n (routedEdge { source := some s } ⟨false, n, n, m⟩ edge) m
+  refine ⟨d, ?_, ?_⟩
+  · unfold getDistances
+    simp only [hroute, bind, Except.bind, hd]
+    rfl
+  · have hedge : routedEdge { source := some s } ⟨false, n, n, m⟩ edge = edge := by
+      simp [routedEdge]
+    rw [hedge] at hex
+    apply Exact.congr (src := fun v => m.getD v false) _ hex
+    intro v hv
+    apply Bool.eq_iff_iff.2
+    rw [hm v hv]; simp
+
+/-- **get_distances, end to end (bipartite).** With row and column sources on an `nRow × nCol`
+biadjacency matrix, the two returned vectors are the exact distances in the block graph `[[0,B],[Bᵀ,0]]`
+(rows first) from the block-numbered sources, split at `nRow`. -/
+theorem getDistances_bipartite_exact (nRow nCol : Nat) (b : Nat → Nat → Bool) (sr sc : List Nat)
+    (hsr : ∀ i ∈ sr, i < nRow) (hsc : ∀ j ∈ sc, j < nCol) :
+    ∃ d, getDistances nRow nCol b { sourceRow := some sr, sourceCol := some sc }
+          = .ok (some (.pair (d.take nRow) (d.drop nRow))) ∧
+      Exact (nRow + nCol) (blockEdge nRow b)
+        (fun v => sr.contains v || (decide (nRow ≤ v) && sc.contains (v - nRow))) d := by
+  obtain ⟨m, hroute, _, hm⟩ := route_bipartite nRow nCol sr sc hsr hsc
+  obtain ⟨d, hd, hex, _⟩ := bfs_exact (nRow + nCol)
+    (routedEdge { sourceRow := some sr, sourceCol := some sc } ⟨true, nRow, nRow + nCol, m⟩ b) m
+  refine ⟨d, ?_, ?_⟩
+  · unfold getDistances
+    simp only [hroute, bind, Except.bind, hd]
+    rfl
+  · have hedge : routedEdge { sourceRow := some sr, sourceCol := some sc } ⟨true, nRow, nRow + nCol, m⟩ b
+        = blockEdge nRow b := by
+      simp [routedEdge]
+    rw [hedge] at hex
+    apply Exact.congr (src := fun v => m.getD v false) _ hex
+    intro v hv
+    apply Bool.eq_iff_iff.2
+    rw [hm v hv]; simp
+
+/-! ## get_dag -/
+
+/-- **getDag_exact**. `get_dag` keeps exactly the stored edges that go from a node of non-negative order
+to a node of strictly higher order — as a list, in storage order, whatever order `np.unique` enumerates
+the values in. -/
+theorem getDag_exact (es : List Entry) (order : List Int) (hrow : ∀ e ∈ es, e.row < order.length) :
+    pairsOf (getDagEntries es order) =
+      pairsOf (es.filter fun e => e.keep && decide (0 ≤ order.getD e.row 0) &&
+                                   decide (order.getD e.row 0 < order.getD e.col 0)) := by
+  unfold getDagEntries pairsOf
+  rw [dagLoop_eq_map]
+  induction es with
+  | nil => simp
+  | cons e es ih =>
+    have ih' := ih (fun x hx => hrow x (by simp [hx]))
+    obtain ⟨h1, h2, h3⟩ := loopE_spec order (unique order) e
+    have hk := killed_iff order e (hrow e (by simp))
+    have hcond : (loopE order (unique order) e).keep =
+        (e.keep && decide (0 ≤ order.getD e.row 0) && decide (order.getD e.row 0 < order.getD e.col 0)) := by
+      apply Bool.eq_iff_iff.2
+      rw [h3]
+      simp only [Bool.and_eq_true, decide_eq_true_eq]
+      constructor
+      · rintro ⟨hkeep, hall⟩
+        have hnot : ¬ (order.getD e.row 0 < 0 ∨ order.getD e.col 0 ≤ order.getD e.row 0) := by
+          intro hc
+          obtain ⟨v, hv, hkv⟩ := hk.2 hc
+          rw [hall v hv] at hkv; exact Bool.noConfusion hkv
+        refine ⟨⟨hkeep, ?_⟩, ?_⟩ <;> omega
+      · rintro ⟨⟨hkeep, h0⟩, hlt⟩
+        refine ⟨hkeep, fun v hv => ?_⟩
+        cases hkv : kills order v e
+        · rfl
+        · have := hk.1 ⟨v, hv, hkv⟩
+          omega
+    simp only [List.map_cons, List.filter_cons]
+    rw [hcond]
+    split
+    · simp only [List.map_cons, h1, h2]
+      rw [ih']
+    · exact ih'
+
+/-- **getDag_exact**, read edge by edge on an `n × n` graph: `(i,j)` is an edge of the result iff it is an
+edge of the graph with `0 ≤ order i < order j`. -/
+theorem getDag_edge_iff (n : Nat) (edge : Nat → Nat → Bool) (order : List Int) (hlen : order.length = n)
+    (i j : Nat) :
+    (i, j) ∈ pairsOf (getDagEntries (entriesOf n edge) order) ↔
+      i < n ∧ j < n ∧ edge i j = true ∧ 0 ≤ order.getD i 0 ∧ order.getD i 0 < order.getD j 0 := by
+  rw [getDag_exact _ _ (fun e he => by rw [hlen]; exact ((mem_entriesOf n edge e).1 he).1)]
+  unfold pairsOf
+  simp only [List.mem_map, List.mem_filter, Bool.and_eq_true, decide_eq_true_eq, Prod.mk.injEq]
+  constructor
+  · rintro ⟨e, ⟨he, ⟨_, h0⟩, hlt⟩, rfl, rfl⟩
+    obtain ⟨hi, hj, hedge, _⟩ := (mem_entriesOf n edge e).1 he
+    exact ⟨hi, hj, hedge, h0, hlt⟩
+  · rintro ⟨hi, hj, hedge, h0, hlt⟩
+    exact ⟨⟨i, j, true⟩, ⟨(mem_entriesOf n edge _).2 ⟨hi, hj, hedge, rfl⟩, ⟨rfl, h0⟩, hlt⟩, rfl, rfl⟩
+
+example : pairsOf (getDagEntries (entriesOf 3 (fun i j => i != j)) [2, -1, 5]) = [(0, 2)] := by decide
+
+/-! ## get_shortest_path -/
+
+/-- along an edge the distance grows by at most one, and reachability propagates -/
+theorem dist_edge {n : Nat} {edge : Nat → Nat → Bool} {src : Nat → Bool} {dist : List Int}
+    (h : Exact n edge src dist) {i j : Nat} (hj : j < n) (he : edge i j = true) {d : Nat}
+    (hi : IsDist n edge src i d) :
+    ∃ e : Nat, e ≤ d + 1 ∧ IsDist n edge src j e ∧ dist.getD j (-1) = (e : Int) := by
+  have hw : Walk n edge src (d+1) j := Walk.succ hi.1 he hj
+  rcases h.2 j hj with ⟨e, he', hdist⟩ | ⟨_, hun⟩
+  · refine ⟨e, ?_, hdist, he'⟩
+    by_cases hle : e ≤ d + 1
+    · exact hle
+    · exact absurd hw (hdist.2 _ (by omega))
+  · exact absurd hw (hun _)
+
+/-- **shortestPathDag_exact**. With `order` = an exact distance vector, `get_dag` keeps exactly the edges
+`(i,j)` of the graph with `i` reachable and `dist j = dist i + 1` (edges never skip a layer). -/
+theorem shortestPathDag_exact (n : Nat) (edge : Nat → Nat → Bool) (src : Nat → Bool) (dist : List Int)
+    (h : Exact n edge src dist) (i j : Nat) :
+    (i, j) ∈ pairsOf (getDagEntries (entriesOf n edge) dist) ↔
+      i < n ∧ j < n ∧ edge i j = true ∧
+        ∃ d : Nat, IsDist n edge src i d ∧ IsDist n edge src j (d+1) := by
+  rw [getDag_edge_iff n edge dist h.1]
+  constructor
+  · rintro ⟨hi, hj, he, h0, hlt⟩
+    refine ⟨hi, hj, he, ?_⟩
+    have hgi : dist.getD i 0 = dist.getD i (-1) := by
+      rw [List.getD_eq_getElem?_getD, List.getD_eq_getElem?_getD, List.getElem?_eq_getElem (by rw [h.1]; exact hi)]
+      rfl
+    have hgj : dist.getD j 0 = dist.getD j (-1) := by
+      rw [List.getD_eq_getElem?_getD, List.getD_eq_getElem?_getD, List.getElem?_eq_getElem (by rw [h.1]; exact hj)]
+      rfl
+    rw [hgi] at h0 hlt; rw [hgj] at hlt
+    rcases h.2 i hi with ⟨d, hd, hdi⟩ | ⟨hm, _⟩
+    · obtain ⟨e, hle, hdj, hej⟩ := dist_edge h hj he hdi
+      rw [hd, hej] at hlt
+      have : e = d + 1 := by omega
+      subst this
+      exact ⟨d, hdi, hdj⟩
+    · omega
+  · rintro ⟨hi, hj, he, d, hdi, hdj⟩
+    refine ⟨hi, hj, he, ?_⟩
+    have hgi : dist.getD i 0 = dist.getD i (-1) := by
+      rw [List.getD_eq_getElem?_getD, List.getD_eq_getElem?_getD, List.getElem?_eq_getElem (by rw [h.1]; exact hi)]
+      rfl
+    have hgj : dist.getD j 0 = dist.getD j (-1) := by
+      rw [List.getD_eq_getElem?_getD, List.getD_eq_getElem?_getD, List.getElem?_eq_getElem (by rw [h.1]; exact hj)]
+      rfl
+    rw [hgi, hgj, ((exact_entry h hi).2 d).2 hdi, ((exact_entry h hj).2 (d+1)).2 hdj]
+    omega
+
+/-- **get_shortest_path, end to end (plain graph).** The function returns an `n`-node graph whose edges are
+exactly the edges `(i,j)` of the input with `i` reachable from the sources and `dist j = dist i + 1`. -/
+theorem getShortestPath_plain_exact (n : Nat) (edge : Nat → Nat → Bool) (s : List Nat)
+    (hs : ∀ i ∈ s, i < n) :
+    ∃ ps, getShortestPath n n edge { source := some s } = .ok (some (n, ps)) ∧
+      ∀ i j, (i, j) ∈ ps ↔ i < n ∧ j < n ∧ edge i j = true ∧
+        ∃ d : Nat, IsDist n edge (fun v => s.contains v) i d ∧ IsDist n edge (fun v => s.contains v) j (d+1) := by
+  obtain ⟨d, hd, hex⟩ := getDistances_plain_exact n edge s hs
+  refine ⟨pairsOf (getDagEntries (entriesOf n edge) d), ?_, fun i j => shortestPathDag_exact n edge _ d hex i j⟩
+  unfold getShortestPath
+  simp only [hd, bind, Except.bind]
+  simp [pure, Except.pure]
+
+example : (getShortestPath 3 3 (fun i j => j == (i+1) % 3) { source := some [0] }).toOption
+    = some (some (3, [(0, 1), (1, 2)])) := by decide
+
+/-! ## breadth_first_search -/
+
+/-- `perm` is what `np.argsort(d)` may return: a permutation of the indices along which `d` is non-decreasing -/
+structure SortingPerm (d : List Int) (perm : List Nat) : Prop where
+  isPerm : perm.Perm (List.range d.length)
+  sorted : perm.Pairwise (fun a b => d.getD a 0 ≤ d.getD b 0)
+
+/-- **bfsOrder_exact**. For *any* sorting permutation that `argsort` may return, `breadth_first_search`
+lists exactly the nodes with a non-negative distance (the reachable ones, by `bfs_exact`), each once, in
+non-decreasing distance. -/
+theorem bfsOrder_exact (d : List Int) (perm : List Nat) (hp : SortingPerm d perm) :
+    let out := bfsOrderWith d perm
+    (∀ v, v ∈ out ↔ v < d.length ∧ 0 ≤ d.getD v 0) ∧ out.Nodup ∧
+    out.Pairwise (fun a b => d.getD a 0 ≤ d.getD b 0) := by
+  intro out
+  -- the number of negative entries of d equals the number of indices of perm with a negative entry
+  have hcount : (d.filter (· < 0)).length = (perm.filter fun a => decide (d.getD a 0 < 0)).length := by
+    have h1 : (perm.filter fun a => decide (d.getD a 0 < 0)).length
+        = ((List.range d.length).filter fun a => decide (d.getD a 0 < 0)).length :=
+      (hp.isPerm.filter _).length_eq
+    rw [h1, range_filter_length]
+  obtain ⟨k, hk, htake, hdrop⟩ := pairwise_drop_prefix_neg d perm hp.sorted
+  have hout : out = perm.drop k := by
+    show bfsOrderWith d perm = _
+    unfold bfsOrderWith
+    rw [hcount, ← hk]
+  refine ⟨fun v => ?_, ?_, ?_⟩
+  · rw [hout]
+    constructor
+    · intro hv
+      have hmem : v ∈ perm := List.mem_of_mem_drop hv
+      exact ⟨List.mem_range.1 (hp.isPerm.mem_iff.1 hmem), hdrop v hv⟩
+    · rintro ⟨hlt, h0⟩
+      have hmem : v ∈ perm := hp.isPerm.mem_iff.2 (List.mem_range.2 hlt)
+      rw [← List.take_append_drop k perm] at hmem
+      rcases List.mem_append.1 hmem with h | h
+      · have := htake v h; omega
+      · exact h
+  · rw [hout]
+    have : perm.Nodup := hp.isPerm.nodup_iff.2 List.nodup_range
+    exact this.sublist (List.drop_sublist k perm)
+  · rw [hout]
+    exact hp.sorted.sublist (List.drop_sublist k perm)
+
+/-- the model's own `argsort` is a sorting permutation (so the theorem above is not vacuous) -/
+example : SortingPerm [2, -1, 0, -1] (argsort [2, -1, 0, -1]) :=
+  ⟨by decide, by decide⟩
 
 end SkNet.C10
